@@ -1078,6 +1078,8 @@ pub fn image(p: &Program, ops: &[Op]) -> (Vec<u8>, Vec<RefEntry>, RefState) {
                             b.put(94, 1, *base as u64);
                         }
                         FadtSet::Profile(pf) => b.put(45, 1, *pf as u64),
+                        // index 42 = the checksum field: recomputed by finalize(), no trace in the image
+                        FadtSet::Field(i, _) if *i as usize >= FADT_FIELDS.len() => {}
                         FadtSet::Field(i, v) => {
                             let (off, w) = FADT_FIELDS[*i as usize];
                             b.put(off, w, *v);
